@@ -108,6 +108,12 @@ def _explicit(rng, kind, N, M):
 
 def generate(rng, config):
     n, clauses = cnfref.random_cnf(rng, max_vars=8, max_clauses=12)
+    if rng.random() < 0.12:
+        # two-digit variables and clause positions
+        n = rng.choice([10, 11, 16, 25])
+        clauses = [[rng.choice([1, -1]) * rng.randint(1, n)
+                    for _ in range(rng.randint(0, 4))]
+                   for _ in range(rng.choice([10, 11, 14, 30]))]
     case = {"n": n, "clauses": clauses, "entry": config}
     M = len(clauses)
     args = {}
